@@ -108,6 +108,9 @@ pub struct Model {
     pub admin: String,
     pub nominee: Option<String>,
     pub monitors: Vec<String>,
+    /// fee configuration as last successfully supplied (instantiate / UpdateConfig)
+    pub fee_rate: u128,
+    pub treasury: Option<String>,
 }
 
 #[derive(Clone, Debug, Hash, PartialEq, Eq, Serialize, Default)]
@@ -180,7 +183,7 @@ impl Sim {
         );
         Ok(Sim {
             w,
-            m: Model { batches, pending: 1, packets: BTreeMap::new(), halted: true, admin: p20("adm"), nominee: None, monitors: monitors_of(k) },
+            m: Model { batches, pending: 1, packets: BTreeMap::new(), halted: true, admin: p20("adm"), nominee: None, monitors: monitors_of(k), fee_rate: k.fee, treasury: if k.treasury { Some(p20("tre")) } else { None } },
             g: Ghost { honest: true, ..Default::default() },
         })
     }
@@ -443,8 +446,14 @@ impl Sim {
                 self.m.admin = sender.to_string();
                 self.m.nominee = None;
             }
-            ExecuteMsg::UpdateConfig { monitors: Some(l), .. } => {
-                self.m.monitors = l.clone();
+            ExecuteMsg::UpdateConfig { monitors, protocol_fee_config, .. } => {
+                if let Some(l) = monitors {
+                    self.m.monitors = l.clone();
+                }
+                if let Some(f) = protocol_fee_config {
+                    self.m.fee_rate = f.dao_treasury_fee.u128();
+                    self.m.treasury = f.treasury_address.clone();
+                }
             }
             ExecuteMsg::ResumeContract { total_native_token, total_liquid_stake_token, .. } => {
                 self.m.halted = false;
